@@ -10,6 +10,7 @@ CONSTANTS
   Splits = TRUE
   S0Kinds = {"given"}
   HandOvers = {"inplace", "copygo", "copyc"}
+  OutKinds = {"zero"}
   Emit = TRUE
 INVARIANTS Causal PureLabels Tiling SegmentLabels
 CHECK_DEADLOCK FALSE
